@@ -307,6 +307,18 @@ def cache_cases(rnd, n):
             ts = 1500000000 + rnd.randint(0, 50)
             ls.append("in %s %d %d" % (tg.hx("%s 1 %d" % (nm, ts)), gen.fbits("1"), ts))
         out.append(("c%d" % i, t + ls))
+    # names whose FNV-1a 64 digests are equal: a cache keyed by anything but the name itself confuses them
+    for j, (a, b) in enumerate((("8yn0iYCKYHlIj4-BwPqk", "GReLUrM4wMqfg9yzV3KQ"), ("gMPflVXtwGDXbIhP73TX", "LtHf1prlU1bCeYZEdqWf"))):
+        for first, second in ((a, b), (b, a)):
+            t = ["lvl none none 0",
+                 tg.agg_line(["sum", "(%s.*)" % first[1:8], "agg.$1", 10, 0, 1, 1, "", "", "", "", ""]),   # no static prefix: the cache decides
+                 "route cap - - - - - -", "build"]
+            ls = []
+            for k, nm in enumerate((first, second, first, second)):     # no flush in between (a flush also expires the cache); one bucket per point
+                ts = 1500000010 + 10 * k
+                ls.append("inx %s %d %d" % (tg.hx("%s 1 %d" % (nm, ts)), gen.fbits("1"), ts))
+            ls.append("pump")
+            out.append(("col%d%s" % (j, first[:2]), t + ls))
     return out
 
 
